@@ -46,6 +46,14 @@ def run(P, rep, tier):
     rep.attempt(r_loader_agreement, P, rep, ctx, "C20.R2")
     rep.attempt(r3_accessors, P, rep, ctx)
     rep.attempt(r4_schema_export, P, rep, ctx)
+    # schema / package records of objects that still exist are kept: the un-linking flag of _destroy_meta reaches every nested object
+    from . import c06
+
+    rep.attempt(c06.r_unlink_threading, P, rep, ctx, "C20.R5")
+    # the embedded parent chain is what _update_parents_children records (shared with C07.R6)
+    from . import c07
+
+    rep.attempt(c07.r6_children_index, P, rep, ctx)
     rep.floor("C20.R1", 12)
     rep.floor("C20.R2", 12)
     rep.floor("C20.R3", 18)
